@@ -19,25 +19,25 @@ const resetFG = ansi.DefaultFG + "\033[m"
 // the palette of internal/main.go (defaultPalette), in the slot order of Model/UI.v
 func defaultPalette() []string {
 	return []string{
-		resetFG,                      // EOLReset
-		ansi.ColorCode("magenta+b"),  // RoutineFirst
-		"",                           // Routine
-		ansi.LightBlack,              // CreatedBy
-		ansi.LightRed,                // Race
-		ansi.ColorCode("default+b"),  // Package
-		resetFG,                      // SrcFile
-		ansi.ColorCode("yellow+b"),   // FuncMain
-		ansi.White,                   // FuncLocationUnknown
-		ansi.ColorCode("white+b"),    // FuncLocationUnknownExported
-		ansi.Red,                     // FuncGoMod
-		ansi.ColorCode("red+b"),      // FuncGoModExported
-		ansi.Cyan,                    // FuncGOPATH
-		ansi.ColorCode("cyan+b"),     // FuncGOPATHExported
-		ansi.Blue,                    // FuncGoPkg
-		ansi.ColorCode("blue+b"),     // FuncGoPkgExported
-		ansi.Green,                   // FuncStdLib
-		ansi.ColorCode("green+b"),    // FuncStdLibExported
-		resetFG,                      // Arguments
+		resetFG,                     // EOLReset
+		ansi.ColorCode("magenta+b"), // RoutineFirst
+		"",                          // Routine
+		ansi.LightBlack,             // CreatedBy
+		ansi.LightRed,               // Race
+		ansi.ColorCode("default+b"), // Package
+		resetFG,                     // SrcFile
+		ansi.ColorCode("yellow+b"),  // FuncMain
+		ansi.White,                  // FuncLocationUnknown
+		ansi.ColorCode("white+b"),   // FuncLocationUnknownExported
+		ansi.Red,                    // FuncGoMod
+		ansi.ColorCode("red+b"),     // FuncGoModExported
+		ansi.Cyan,                   // FuncGOPATH
+		ansi.ColorCode("cyan+b"),    // FuncGOPATHExported
+		ansi.Blue,                   // FuncGoPkg
+		ansi.ColorCode("blue+b"),    // FuncGoPkgExported
+		ansi.Green,                  // FuncStdLib
+		ansi.ColorCode("green+b"),   // FuncStdLibExported
+		resetFG,                     // Arguments
 	}
 }
 
@@ -63,7 +63,7 @@ func runPP(content []byte, args []string, banner bool) (string, int) {
 	return out.String(), code
 }
 
-func emitPP(id string, content []byte, level, pf, lit string, banner bool, ngor string) {
+func emitPP(id string, content []byte, level, pf, lit string, banner bool, ngor string, junks string) {
 	base := []string{"-rebase=false"}
 	if level == "3" {
 		base = append(base, "-aggressive")
@@ -73,6 +73,13 @@ func emitPP(id string, content []byte, level, pf, lit string, banner bool, ngor 
 	}
 	plain, pe := runPP(content, append(append([]string{}, base...), "-no-color"), banner)
 	color, ce := runPP(content, append(append([]string{}, base...), "-force-color"), banner)
+	// determinism across processes (C06): the same run again
+	det := "1"
+	for k := 0; k < 2; k++ {
+		if p2, e2 := runPP(content, append(append([]string{}, base...), "-no-color"), banner); p2 != plain || e2 != pe {
+			det = "0"
+		}
+	}
 	filt, fe, mat, me := "", 0, "", 0
 	if lit != "" {
 		q := regexp.QuoteMeta(lit)
@@ -89,12 +96,12 @@ func emitPP(id string, content []byte, level, pf, lit string, banner bool, ngor 
 	}
 	emit("pp", id, hexs(content), level, pf, hexs([]byte(lit)), b, strings.Join(pal, ","),
 		hexs([]byte(plain)), fmt.Sprint(pe), hexs([]byte(color)), fmt.Sprint(ce),
-		hexs([]byte(filt)), fmt.Sprint(fe), hexs([]byte(mat)), fmt.Sprint(me), ngor)
+		hexs([]byte(filt)), fmt.Sprint(fe), hexs([]byte(mat)), fmt.Sprint(me), ngor, junks, det)
 }
 
 func init() {
 	replayers["pp"] = func(id string, in []string) {
-		emitPP(id, unhexs(in[0]), in[1], in[2], string(unhexs(in[3])), in[4] == "1", in[len(in)-1])
+		emitPP(id, unhexs(in[0]), in[1], in[2], string(unhexs(in[3])), in[4] == "1", in[len(in)-2], in[len(in)-1])
 	}
 }
 
@@ -103,6 +110,7 @@ func opPP(r *rand.Rand, n int, tier string) {
 	for i := 0; i < n; i++ {
 		var txt string
 		ngor := "-"
+		junks := "-"
 		lits := []string{"zzz-never", ": ", "[locked]", "minutes", "Created by"}
 		switch r.Intn(5) {
 		case 0: // a race report
@@ -114,10 +122,22 @@ func opPP(r *rand.Rand, n int, tier string) {
 			ngor = fmt.Sprint(len(d.Ops))
 			lits = append(lits, "running", "finished", "Race write", "Race read")
 		case 1: // stream with several dumps and junk
-			txt = genJunk(r, r.Intn(3), true, false)
-			for k := 0; k < 1+r.Intn(2); k++ {
-				txt += printDump(g.dump(1+r.Intn(4), 4), g.variant(), true) + genJunk(r, 1+r.Intn(3), true, false)
+			j0 := genJunk(r, r.Intn(3), true, false)
+			txt = j0
+			js := []string{hexs([]byte(j0))}
+			nd := 1 + r.Intn(2)
+			for k := 0; k < nd; k++ {
+				j := genJunk(r, 1+r.Intn(3), true, false)
+				if k == nd-1 && r.Intn(2) == 0 {
+					j += "last line without eol"
+				}
+				// no indentation: an indented dump followed by unindented text ends with a scan error (observation O1)
+				v := g.variant()
+				v.Indent, v.BlankIndents = "", false
+				txt += printDump(g.dump(1+r.Intn(4), 4), v, true) + j
+				js = append(js, hexs([]byte(j)))
 			}
+			junks = strings.Join(js, ",")
 		default: // one dump, similar goroutines so that buckets merge
 			ng := 1 + r.Intn(8)
 			d := g.dump(ng, 4)
@@ -158,6 +178,6 @@ func opPP(r *rand.Rand, n int, tier string) {
 		if r.Intn(3) == 0 {
 			pf = "full"
 		}
-		emitPP(fmt.Sprintf("pp-%d", i), []byte(txt), level, pf, lit, r.Intn(3) == 0, ngor)
+		emitPP(fmt.Sprintf("pp-%d", i), []byte(txt), level, pf, lit, r.Intn(3) == 0, ngor, junks)
 	}
 }
